@@ -127,6 +127,18 @@ impl CaseCtx {
         }
     }
 
+    /// Announce a violation before a risky follow-up step (minimisation): printed and flushed
+    /// at once, used by the driver only if the worker dies before the case ends.
+    pub fn pre_violation(&self, sig: &Value, what: &str, replay: &Value) {
+        if self.progress_enabled {
+            use std::io::Write;
+            let out = std::io::stdout();
+            let mut out = out.lock();
+            let _ = writeln!(out, "V {} {}", self.case, json!({"sig": sig, "what": what, "replay": replay}));
+            let _ = out.flush();
+        }
+    }
+
     pub fn violation(&mut self, sig: Value, what: impl Into<String>, replay: Value) {
         self.violations.push(Violation {
             sig,
